@@ -100,5 +100,13 @@ def present(X, how):
     if how == "list":
         return X.astype(float).tolist()
     if how == "int":
-        return np.rint(X).astype(np.int64)
+        # the narrowest integer dtype that holds the (integral) values: squares and sums must not be
+        # formed in that dtype by the code under test
+        Xi = np.rint(X)
+        lo, hi = (float(Xi.min()), float(Xi.max())) if Xi.size else (0.0, 0.0)
+        for dt in (np.uint8, np.int8, np.int16, np.int32):
+            info = np.iinfo(dt)
+            if lo >= info.min and hi <= info.max:
+                return Xi.astype(dt)
+        return Xi.astype(np.int64)
     return X.astype(float)
